@@ -18,6 +18,7 @@ import (
 
 	"verif/hx"
 	"verif/refsmtp"
+	"verif/sasl"
 	"verif/sched"
 	"verif/vf"
 )
@@ -29,6 +30,7 @@ type c13Scn struct {
 	Senders int    `json:"senders"` // goroutines calling Send on the shared, dialled connection
 	Dialers int    `json:"dialers"` // goroutines calling DialAndSend on the same Client
 	PerCall int    `json:"per_call"`
+	Auth    string `json:"auth,omitempty"` // "" none, "LOGIN" (multi-step, stateful), "SCRAM-SHA-256", "AUTODISCOVER"
 }
 
 type c13Case struct {
@@ -37,12 +39,15 @@ type c13Case struct {
 }
 
 var c13Scenarios = []c13Scn{
-	{"2xSend(1)", 2, 0, 1},
-	{"2xSend(2)", 2, 0, 2},
-	{"3xSend(1)", 3, 0, 1},
-	{"2xDialAndSend(1)", 0, 2, 1},
-	{"Send+DialAndSend", 1, 1, 1},
-	{"2xSend+DialAndSend", 2, 1, 1},
+	{"2xSend(1)", 2, 0, 1, ""},
+	{"2xSend(2)", 2, 0, 2, ""},
+	{"3xSend(1)", 3, 0, 1, ""},
+	{"2xDialAndSend(1)", 0, 2, 1, ""},
+	{"Send+DialAndSend", 1, 1, 1, ""},
+	{"2xSend+DialAndSend", 2, 1, 1, ""},
+	{"2xDialAndSend(1)+LOGIN", 0, 2, 1, "LOGIN"},
+	{"2xDialAndSend(1)+SCRAM", 0, 2, 1, "SCRAM-SHA-256"},
+	{"Send+DialAndSend+AUTODISCOVER", 1, 1, 1, "AUTODISCOVER"},
 }
 
 var c13Blocked int32
@@ -59,12 +64,29 @@ type c13World struct {
 func c13Build(r *vf.Run, scn c13Scn, hook func(string)) *c13World {
 	w := &c13World{}
 	w.rig = &hx.Rig{Mk: func(n int) *refsmtp.Conn {
-		sess := &refsmtp.Session{Host: hx.Host, Caps: []string{"8BITMIME"}}
+		caps := []string{"8BITMIME"}
+		if scn.Auth != "" {
+			caps = append(caps, "AUTH LOGIN SCRAM-SHA-256 CRAM-MD5")
+		}
+		sess := &refsmtp.Session{Host: hx.Host, Caps: caps}
 		c := refsmtp.NewConn(sess)
 		c.Hook = hook
+		if scn.Auth != "" {
+			tr := &sasl.Trace{}
+			sess.NewAuth = saslFactory(c, c19User, c19Pass, tr)
+		}
 		return c
 	}}
-	cl, err := mail.NewClient(hx.Host, mail.WithDialContextFunc(w.rig.Dial), mail.WithHELO("client.example.test"), mail.WithTLSPolicy(mail.NoTLS))
+	opts := []mail.Option{mail.WithDialContextFunc(w.rig.Dial), mail.WithHELO("client.example.test"), mail.WithTLSPolicy(mail.NoTLS)}
+	switch scn.Auth {
+	case "LOGIN":
+		opts = append(opts, mail.WithSMTPAuth(mail.SMTPAuthLoginNoEnc), mail.WithUsername(c19User), mail.WithPassword(c19Pass))
+	case "SCRAM-SHA-256":
+		opts = append(opts, mail.WithSMTPAuth(mail.SMTPAuthSCRAMSHA256), mail.WithUsername(c19User), mail.WithPassword(c19Pass))
+	case "AUTODISCOVER":
+		opts = append(opts, mail.WithSMTPAuth(mail.SMTPAuthAutoDiscover), mail.WithUsername(c19User), mail.WithPassword(c19Pass))
+	}
+	cl, err := mail.NewClient(hx.Host, opts...)
 	if err != nil {
 		r.HarnessError("C13 NewClient: %v", err)
 		return nil
@@ -189,7 +211,8 @@ func c13RacePass(iter int) int {
 	rng := rand.New(rand.NewSource(int64(iter)))
 	var rmu sync.Mutex
 	for it := 0; it < iter; it++ {
-		for _, scn := range []c13Scn{{"2", 2, 0, 1}, {"8", 6, 2, 1}, {"64", 48, 16, 1}, {"3x2", 3, 0, 2}, {"dial", 0, 4, 1}} {
+		for _, scn := range []c13Scn{{"2", 2, 0, 1, ""}, {"8", 6, 2, 1, ""}, {"64", 48, 16, 1, ""}, {"3x2", 3, 0, 2, ""}, {"dial", 0, 4, 1, ""},
+			{"dial+login", 0, 6, 1, "LOGIN"}, {"mixed+scram", 3, 5, 1, "SCRAM-SHA-256"}, {"mixed+auto", 2, 6, 1, "AUTODISCOVER"}} {
 			if scn.Senders+scn.Dialers > 16 && it%4 != 0 {
 				continue
 			}
@@ -236,7 +259,7 @@ func init() {
 	vf.Register(&vf.Check{
 		ID: "C13", Title: "concurrent use of one Client is safe",
 		Run: func(r *vf.Run) {
-			r.SetRule("scenarios {2×Send(1 msg), 2×Send(2 msgs), 3×Send(1), 2×DialAndSend, Send+DialAndSend, 2×Send+DialAndSend} on one Client; ALL interleavings at visible operations (every Lock/RLock of go-mail's mutexes through the sync shim, every connection Read/Write/Close) up to the preemption bound, under a cooperative scheduler that models Go's RWMutex (a waiting writer blocks new readers); oracle per schedule: protocol monitor on every connection, commit log = every message exactly once with its own envelope and complete content, all calls return nil, no deadlock; plus a separate free-running pass of the same bodies under the Go race detector (2..64 goroutines, jittered I/O) — that pass samples schedules; distinct by (scenario, schedule)")
+			r.SetRule("scenarios {2×Send(1 msg), 2×Send(2 msgs), 3×Send(1), 2×DialAndSend, Send+DialAndSend, 2×Send+DialAndSend, 2×DialAndSend with LOGIN / SCRAM authentication, Send+DialAndSend with auto-discovered authentication} on one Client; ALL interleavings at visible operations (every Lock/RLock of go-mail's mutexes through the sync shim, every connection Read/Write/Close) up to the preemption bound, under a cooperative scheduler that models Go's RWMutex (a waiting writer blocks new readers); oracle per schedule: protocol monitor on every connection, commit log = every message exactly once with its own envelope and complete content, all calls return nil, no deadlock; plus a separate free-running pass of the same bodies under the Go race detector (2..64 goroutines, jittered I/O) — that pass samples schedules; distinct by (scenario, schedule)")
 			r.Assume("releases are not preemption points (sound for data-race-free code; races are the job of the separate -race pass)", "the race pass is sampling, not exhaustive: the 'no data race under any schedule' clause is only decided for the schedules it happens to run")
 			bound := 2
 			if r.Thorough {
